@@ -178,6 +178,16 @@ class SimNet:
             return code, {403: "Forbidden", 404: "Not Found"}[code], {"content-length": "9"}, b"<error/>\n"
         if path not in h.objects:
             return 404, "Not Found", {"content-length": "9"}, b"<error/>\n"
+        if getattr(self, "error_reply_at", None) is not None:
+            # a one-off error reply of an overloaded server / gateway: the n-th request from now on is answered with 503 and a
+            # small error page; the next request is served normally again
+            if self.error_reply_at <= 0:
+                self.error_reply_at = None
+                self.n_error_replies = getattr(self, "n_error_replies", 0) + 1
+                self.ctx.fault("http_503_once")
+                page = b"<html><body><h1>503 Service Unavailable</h1></body></html>\n"
+                return 503, "Service Unavailable", {"content-length": str(len(page)), "content-type": "text/html"}, page
+            self.error_reply_at -= 1
         blob = h.objects[path]
         ek = (path, len(blob))
         if ek not in h.etags:
